@@ -80,6 +80,8 @@ PROVED = {
  'C05': ('P: translation validation for ALL widths of the per-net Verilog emitters - the assign statement printed by the real loop body of _to_verilog_combinational (executed from the real source on a model net with symbolic widths) is parsed back and read under the IEEE 1364-2001 expression width rules, and equals the documented value of the primitive (w ~ & | ^ + - * < > = x, concat of 1..3 pieces, select shapes) for every operand value, discharged by z3; then ', 'per-net emitters proved for all widths (P); '),
  'C15': ('P: contracts on Simulation.step (input validation: PyrtlError iff a value is outside [0, 2**bitwidth), a non-Input is driven or an Input is missing; the trace receives exactly the final value map), FastSimulation.step (PyrtlError iff a provided value is negative or >= 2**bitwidth, by name or by wire; otherwise the compiled step function and the trace receive exactly the provided values), SimulationTrace.add_step / add_fast_step (any number of traced names, loop invariant over ghost length/content arrays: every list grows by exactly one entry = the value of its wire, earlier entries unchanged, PyrtlError iff nothing is traced), Simulation.inspect, and the lemma over those contracts inspect(n) == trace[n][-1] / len grows by one per step, discharged by z3; then ', 'Simulation observation channel proved (P); other simulators, printers, step_multiple, assertions bounded (B); '),
  'C17': ('P: contract on TimingAnalysis._generate_timing_map with a caller-supplied integer delay table over a symbolic well-formed netlist of any size: sources are timed 0 and every timed net satisfies T[dest] == max(T[arg]) + delay (the longest-path recurrence; loop invariant over ghost netlist functions, `max` of a generator over a symbolic argument list), discharged by z3; then ', 'timing-map recurrence proved for integer tables (P); float default table, critical paths, paths, fanout bounded (B); '),
+ 'C20': ('P: contracts on the ordering helpers every exporter sorts its emitted lists with - importexport._natural_sort_key (the key is a pair whose last component is the name itself; one chunk per piece of the split, digit runs as numbers), _name_sorted and _net_sorted (the result is sorted(argument, key=K), K of an item ends with its mapped name; _natural_sort_key applied by contract at the call) and the lemma over them (different names have different keys; the least element under a strict total order is unique, so the ascending arrangement does not depend on the iteration order of the set), discharged by z3; then ',
+         'ordering helpers proved tie-free on names (P); every exported text, trace and read-only-ness bounded across processes (B)'),
  'C02': ('P: translation validation for ALL widths of the FastSimulation per-op expression templates (real simple_func templates evaluated from source, emitted text parsed back) with the real _no_mask_bitwidth mask-elision rule, discharged by z3; PB: translation validation of every emitted C op of CompiledSimulation at limb-crossing widths (elab/cemit); multi-limb multiply on limb-pattern stimuli; then ',
          'FastSimulation per-op emission proved for all widths/values (P); C emitters per width instance (PB); whole programs bounded (B)'),
  'C03': ('P: contracts on the real gate-level generators _one_bit_add, _add_helper (induction on operand length), _basic_add, _basic_sub, _basic_lt (induction), _basic_gt, _basic_eq, or_all_bits, tree_reduce (induction on the vector length; the higher-order precondition `op is OR on one-bit wires` is discharged at each call site by executing the passed lambda on two arbitrary one-bit wires) over the builder model (wire = (bitwidth, den); add_net = WF obligation + documented value), discharged by z3 for all widths and values; then ',
